@@ -19,7 +19,7 @@ META = {
     "indices below the used count; the model is tied to the code by cycle-exact comparison of done bits, returned "
     "identifiers, the order/used result and alloc.ready over entries 1..9,16,17, random/directed histories, a "
     "malformed stream (frees of free identifiers, indices >= used, out-of-range arguments, counter underflow), "
-    "thorough: all histories up to length 3 (4 for entries<=2) on entries 1..4",
+    "thorough: all histories up to length 3 (4 for entries=1) on entries 1..4",
     "level_note": "trusted: Lean kernel, axioms propext/Quot.sound/Classical.choice; Amaranth semantics (incl. Array "
     "out-of-range reads) and pysim; the harness glue. free and free_idx conflict (free calls free_idx) with no "
     "declared priority: simultaneous attempts are excluded from the property and never generated.",
@@ -133,6 +133,19 @@ def monitor(case: Case, out: list[str]):
 
 
 # ------------------------------------------------------------------ generators
+def _corpus() -> list[Case]:
+    """directed cases and minimised past failures kept under corpus/C26 (run first, monitored)"""
+    import json
+
+    from ..common import CORPUS
+
+    out = []
+    for path in sorted((CORPUS / "C26").glob("*.json")):
+        b = json.loads(path.read_text())
+        out.append(Case(b["cfg"], list(b["ops"]), b.get("desc", {}), "corpus"))
+    return out
+
+
 def _mk(n, ops, tag) -> Case:
     """ops: (alloc, free ident|None, free_idx|None, order, clear)"""
     fmt = lambda v: "-" if v is None else str(v)  # noqa: E731
@@ -244,7 +257,7 @@ def exhaustive_cases(ctx: Check):
     never free and free_idx together), order observed every cycle; the monitor judges the ones inside the
     environment hypotheses"""
     cases = []
-    for n, maxlen in [(1, 4), (2, 4), (3, 3), (4, 3)]:
+    for n, maxlen in [(1, 4), (2, 3), (3, 3), (4, 3)]:
         w = (n - 1).bit_length()
         calls = [(None, None)] + [(v, None) for v in range(1 << w)] + [(None, v) for v in range(1 << w)]
         alph = [(a, f, x, True, c) for a in (False, True) for f, x in calls for c in (False, True)]
@@ -278,13 +291,14 @@ def run(ctx: Check):
     ctx.proof_stage()
     procs = ctx.pick(1, None)
     valid, malformed = gen_cases(ctx)
+    valid = _corpus() + valid
     lockstep(ctx, "po-allocator", "C26", valid, impl, monitor, more_cases, nontrivial, procs=procs)
     lockstep(ctx, "po-allocator-malformed", "C26", malformed, impl, None, None, nontrivial, procs=procs)
     ctx.count("configurations", len({c.desc["n"] for c in valid}))
     if ctx.thorough:
         cases = exhaustive_cases(ctx)
         lockstep(ctx, "po-allocator-exhaustive", "C26", cases, impl, monitor, more_cases, lambda c, o: True, procs=procs)
-        ctx.note("thorough: all histories over the full input alphabet up to length 4 (entries 1,2) / 3 (entries 3,4)")
+        ctx.note("thorough: all histories over the full input alphabet up to length 4 (entries 1) / 3 (entries 2,3,4)")
     ctx.note("free+free_idx in the same cycle is never generated: both transactions call the exclusive method "
              "free_idx, no priority is declared, the winner (currently free) is an artefact of scheduling order")
 
